@@ -172,6 +172,19 @@ theorem mapLoop_safe (kt : Ty) (dk dv : Bytes → Outcome (Val × Bytes))
     | err e => simp [Outcome.isPanic]
     | panic p => rw [hd] at h1; simp [Outcome.isPanic] at h1
 
+theorem decodeField_safe (hP : P.valid = true) (S : Schema) (total : Nat)
+    (dt : Ty → Bytes → Val → Outcome (Val × Bytes)) (hdt : ∀ t b d, (dt t b d).safe)
+    (f : Field) (b : Bytes) (slot : Val) : (decodeField P S total dt f b slot).safe := by
+  unfold decodeField
+  split
+  · have := decodeStr_safe f.ty.isBinary true total b
+    unfold Outcome.safe at this ⊢
+    cases hd : decodeStr f.ty.isBinary true total b with
+    | ok a => obtain ⟨v, r⟩ := a; simp [Outcome.isPanic]
+    | err e => simp [Outcome.isPanic]
+    | panic p => rw [hd] at this; simp [Outcome.isPanic] at this
+  · exact decodeSlot_guarded_safe hP S dt hdt f.ty b slot
+
 theorem fieldLoop_safe (hP : P.valid = true) (S : Schema) (sd : SDesc) (total : Nat)
     (dt : Ty → Bytes → Val → Outcome (Val × Bytes)) (hdt : ∀ t b d, (dt t b d).safe) :
     ∀ cnt b st, (fieldLoop P S sd total dt cnt b st).safe
@@ -195,20 +208,13 @@ theorem fieldLoop_safe (hP : P.valid = true) (S : Schema) (sd : SDesc) (total : 
             · simp [Outcome.isPanic]
             · simp [skipRecovers_true hP, Outcome.isPanic]
           · rename_i ix f _
+            have hfs := decodeField_safe hP S total dt hdt f r1 (st.fs.getD ix default)
+            unfold Outcome.safe at hfs
             split
-            · rename_i v r2 hres
-              exact fieldLoop_safe hP S sd total dt hdt cnt _ _
+            · exact fieldLoop_safe hP S sd total dt hdt cnt _ _
             · simp [Outcome.isPanic]
             · rename_i p hres
-              -- the slot decoder cannot panic
-              exfalso
-              split at hres
-              · have := decodeStr_safe f.ty.isBinary true total r1
-                unfold Outcome.safe at this
-                split at hres <;> simp_all [Outcome.isPanic]
-              · have := decodeSlot_guarded_safe hP S dt hdt f.ty r1 (st.fs.getD ix default)
-                unfold Outcome.safe at this
-                rw [hres] at this; simp [Outcome.isPanic] at this
+              rw [hres] at hfs; simp [Outcome.isPanic] at hfs
 end
 
 mutual
